@@ -10,6 +10,15 @@ TRUST = ("rustc 1.95.0 and its diagnostics, the std derives, the hand-written dx
 
 # id -> (technique, level text, design ref, level note)
 CHECKS = {
+    "C10": ("generated programs: every value formatted with 12 format specs by the derive_ex type and by a std-derived twin; strings compared offline",
+            "Held on every (value, format spec) pair of the run; two-transparent-field refusals judged on the in-process expansion.",
+            "DESIGN.md §4 C10", "the std derive(Debug) is the reference; " + TRUST),
+    "C11": ("generated programs: Debug dump of default() vs hand-written constructor; conversion-recording field type; negative compile cases with controls",
+            "Held on every generated type of the run; every expression kind of the property alone and in combination.",
+            "DESIGN.md §4 C11", TRUST),
+    "C12": ("differential execution against the std derives on a shape grammar (std-only control decides the domain)",
+            "Held on every generated shape that the std derives accept: compiles, and all logged observations agree.",
+            "DESIGN.md §4 C12", "the std derives are the reference; " + TRUST),
     "C01": ("generated programs compiled with the real proc-macro; logged ==/partial_cmp/cmp matrices checked offline against the documented rule",
             "Held on every matrix cell of every generated type of the run (counts in evidence); exploration of a large program space, not a proof.",
             "DESIGN.md §4 C01", "per-field primitive comparisons come from std / hand-written reference code in the same binary; " + TRUST),
